@@ -9,6 +9,7 @@ import (
 	"github.com/rulego/streamsql"
 	"github.com/rulego/streamsql/functions"
 	"github.com/rulego/streamsql/logger"
+	"github.com/rulego/streamsql/types"
 	"github.com/rulego/streamsql/verifrt/sched"
 	vtime "github.com/rulego/streamsql/verifrt/time"
 )
@@ -160,6 +161,23 @@ func c20Immutability(a *acc) {
 type c20Inst struct {
 	SQL  string
 	Rows []Row // row alphabet
+	// Perf: "" = defaults; "unnamed" = a custom performance configuration that sets buffers and workers and leaves
+	// the overflow strategy name empty (accepted; means the default strategy)
+	Perf string
+}
+
+func (in c20Inst) options() []streamsql.Option {
+	o := []streamsql.Option{streamsql.WithLogger(logger.NewDiscardLogger())}
+	if in.Perf == "unnamed" {
+		pc := types.PerformanceConfig{}
+		pc.BufferConfig.DataChannelSize = 100
+		pc.BufferConfig.ResultChannelSize = 100
+		pc.BufferConfig.WindowOutputSize = 10
+		pc.WorkerConfig.SinkPoolSize = 2
+		pc.WorkerConfig.SinkWorkerCount = 2
+		o = append(o, streamsql.WithCustomPerformance(pc))
+	}
+	return o
 }
 
 type c20Pair struct {
@@ -172,24 +190,27 @@ func c20Pairs() []c20Pair {
 	mixed := []Row{{"k": "a", "v": 2}, {"k": "a", "v": "2"}, {"k": "a", "v": 2.5}}
 	strs := []Row{{"k": "a", "v": "x"}, {"k": "b", "v": "y"}, {"k": "a", "v": nil}}
 	return []c20Pair{
-		{"same-sql-window", c20Inst{"SELECT k, sum(v) AS s, count(*) AS c FROM stream GROUP BY k, CountingWindow(2)", num}, c20Inst{"SELECT k, sum(v) AS s, count(*) AS c FROM stream GROUP BY k, CountingWindow(2)", num}},
-		{"nth-value-1-vs-2", c20Inst{"SELECT k, nth_value(v, 1) AS n FROM stream GROUP BY k, CountingWindow(2)", num}, c20Inst{"SELECT k, nth_value(v, 2) AS n FROM stream GROUP BY k, CountingWindow(2)", num}},
-		{"same-expr-different-types", c20Inst{"SELECT v + 1 AS r, v * 2 AS m FROM stream", num}, c20Inst{"SELECT v + 1 AS r, v * 2 AS m FROM stream", mixed}},
-		{"same-filter-different-types", c20Inst{"SELECT v FROM stream WHERE v > 1", num}, c20Inst{"SELECT v FROM stream WHERE v > 1", strs}},
-		{"analytic-same-sql", c20Inst{"SELECT k, lag(v) OVER (PARTITION BY k) AS p, acc_sum(v) OVER (PARTITION BY k) AS s FROM stream", num}, c20Inst{"SELECT k, lag(v) OVER (PARTITION BY k) AS p, acc_sum(v) OVER (PARTITION BY k) AS s FROM stream", num}},
-		{"percentile-params", c20Inst{"SELECT percentile(v, 0) AS p FROM stream GROUP BY CountingWindow(2)", num}, c20Inst{"SELECT percentile(v, 1) AS p FROM stream GROUP BY CountingWindow(2)", num}},
+		{"same-sql-window", c20Inst{SQL: "SELECT k, sum(v) AS s, count(*) AS c FROM stream GROUP BY k, CountingWindow(2)", Rows: num}, c20Inst{SQL: "SELECT k, sum(v) AS s, count(*) AS c FROM stream GROUP BY k, CountingWindow(2)", Rows: num}},
+		{"nth-value-1-vs-2", c20Inst{SQL: "SELECT k, nth_value(v, 1) AS n FROM stream GROUP BY k, CountingWindow(2)", Rows: num}, c20Inst{SQL: "SELECT k, nth_value(v, 2) AS n FROM stream GROUP BY k, CountingWindow(2)", Rows: num}},
+		{"same-expr-different-types", c20Inst{SQL: "SELECT v + 1 AS r, v * 2 AS m FROM stream", Rows: num}, c20Inst{SQL: "SELECT v + 1 AS r, v * 2 AS m FROM stream", Rows: mixed}},
+		{"same-filter-different-types", c20Inst{SQL: "SELECT v FROM stream WHERE v > 1", Rows: num}, c20Inst{SQL: "SELECT v FROM stream WHERE v > 1", Rows: strs}},
+		{"analytic-same-sql", c20Inst{SQL: "SELECT k, lag(v) OVER (PARTITION BY k) AS p, acc_sum(v) OVER (PARTITION BY k) AS s FROM stream", Rows: num}, c20Inst{SQL: "SELECT k, lag(v) OVER (PARTITION BY k) AS p, acc_sum(v) OVER (PARTITION BY k) AS s FROM stream", Rows: num}},
+		{"percentile-params", c20Inst{SQL: "SELECT percentile(v, 0) AS p FROM stream GROUP BY CountingWindow(2)", Rows: num}, c20Inst{SQL: "SELECT percentile(v, 1) AS p FROM stream GROUP BY CountingWindow(2)", Rows: num}},
 		// an explicit parameter in one instance, the default parameter in the other (shared registry prototypes)
-		{"percentile-explicit-vs-default", c20Inst{"SELECT percentile(v, 0) AS p FROM stream GROUP BY CountingWindow(2)", num}, c20Inst{"SELECT percentile(v) AS p FROM stream GROUP BY CountingWindow(2)", num}},
-		{"nth-value-explicit-vs-default", c20Inst{"SELECT k, nth_value(v, 2) AS n FROM stream GROUP BY k, CountingWindow(2)", num}, c20Inst{"SELECT k, nth_value(v) AS n FROM stream GROUP BY k, CountingWindow(2)", num}},
-		{"like-vs-like", c20Inst{"SELECT v FROM stream WHERE v LIKE 'x%'", strs}, c20Inst{"SELECT v FROM stream WHERE v LIKE '%y'", strs}},
-		{"literal-differs-only-in-letter-case", c20Inst{"SELECT concat(k, '-ok') AS r, upper(k) AS u FROM stream", strs}, c20Inst{"SELECT concat(k, '-OK') AS r, UPPER(k) AS u FROM stream", strs}},
+		{"percentile-explicit-vs-default", c20Inst{SQL: "SELECT percentile(v, 0) AS p FROM stream GROUP BY CountingWindow(2)", Rows: num}, c20Inst{SQL: "SELECT percentile(v) AS p FROM stream GROUP BY CountingWindow(2)", Rows: num}},
+		{"nth-value-explicit-vs-default", c20Inst{SQL: "SELECT k, nth_value(v, 2) AS n FROM stream GROUP BY k, CountingWindow(2)", Rows: num}, c20Inst{SQL: "SELECT k, nth_value(v) AS n FROM stream GROUP BY k, CountingWindow(2)", Rows: num}},
+		{"like-vs-like", c20Inst{SQL: "SELECT v FROM stream WHERE v LIKE 'x%'", Rows: strs}, c20Inst{SQL: "SELECT v FROM stream WHERE v LIKE '%y'", Rows: strs}},
+		{"literal-differs-only-in-letter-case", c20Inst{SQL: "SELECT concat(k, '-ok') AS r, upper(k) AS u FROM stream", Rows: strs}, c20Inst{SQL: "SELECT concat(k, '-OK') AS r, UPPER(k) AS u FROM stream", Rows: strs}},
 		// MATCH_RECOGNIZE evaluates DEFINE/MEASURES through a process-wide sync.Pool of scratch maps
-		{"cep-vs-cep", c20Inst{"SELECT * FROM stream MATCH_RECOGNIZE (PARTITION BY k ORDER BY ts MEASURES FIRST(v) AS f, LAST(v) AS l ONE ROW PER MATCH PATTERN (A B) DEFINE A AS v >= 1, B AS v > PREV(v))", num},
-			c20Inst{"SELECT * FROM stream MATCH_RECOGNIZE (ORDER BY ts MEASURES LAST(k) AS lk, COUNT(A.v) AS c ONE ROW PER MATCH PATTERN (A+ B) DEFINE A AS v < 3, B AS v >= 3)", num}},
-		{"global-window-vs-session", c20Inst{"SELECT k, sum(v) AS s FROM stream GROUP BY k, GLOBAL WINDOW TRIGGER WHEN sum(v) >= 3", num},
-			c20Inst{"SELECT k, max(v) AS s FROM stream GROUP BY k, GLOBAL WINDOW TRIGGER WHEN max(v) >= 2", num}},
-		{"group-key-expr", c20Inst{"SELECT upper(k) AS uk, count(*) AS c FROM stream GROUP BY upper(k), CountingWindow(2)", num}, c20Inst{"SELECT concat(k, 'x') AS uk, count(*) AS c FROM stream GROUP BY k, CountingWindow(2)", num}},
-		{"case-vs-concat", c20Inst{"SELECT CASE WHEN v > 1 THEN 'hi' ELSE 'lo' END AS r FROM stream", num}, c20Inst{"SELECT k + '_' + k AS r FROM stream", strs}},
+		{"cep-vs-cep", c20Inst{SQL: "SELECT * FROM stream MATCH_RECOGNIZE (PARTITION BY k ORDER BY ts MEASURES FIRST(v) AS f, LAST(v) AS l ONE ROW PER MATCH PATTERN (A B) DEFINE A AS v >= 1, B AS v > PREV(v))", Rows: num},
+			c20Inst{SQL: "SELECT * FROM stream MATCH_RECOGNIZE (ORDER BY ts MEASURES LAST(k) AS lk, COUNT(A.v) AS c ONE ROW PER MATCH PATTERN (A+ B) DEFINE A AS v < 3, B AS v >= 3)", Rows: num}},
+		{"global-window-vs-session", c20Inst{SQL: "SELECT k, sum(v) AS s FROM stream GROUP BY k, GLOBAL WINDOW TRIGGER WHEN sum(v) >= 3", Rows: num},
+			c20Inst{SQL: "SELECT k, max(v) AS s FROM stream GROUP BY k, GLOBAL WINDOW TRIGGER WHEN max(v) >= 2", Rows: num}},
+		{"group-key-expr", c20Inst{SQL: "SELECT upper(k) AS uk, count(*) AS c FROM stream GROUP BY upper(k), CountingWindow(2)", Rows: num}, c20Inst{SQL: "SELECT concat(k, 'x') AS uk, count(*) AS c FROM stream GROUP BY k, CountingWindow(2)", Rows: num}},
+		{"case-vs-concat", c20Inst{SQL: "SELECT CASE WHEN v > 1 THEN 'hi' ELSE 'lo' END AS r FROM stream", Rows: num}, c20Inst{SQL: "SELECT k + '_' + k AS r FROM stream", Rows: strs}},
+		// instances built from a custom performance configuration whose overflow strategy is left unnamed
+		{"unnamed-overflow-strategy", c20Inst{SQL: "SELECT k, v FROM stream", Rows: num, Perf: "unnamed"}, c20Inst{SQL: "SELECT v * 10 AS w FROM stream WHERE v > 1", Rows: num, Perf: "unnamed"}},
+		{"unnamed-strategy-vs-default", c20Inst{SQL: "SELECT k, count(*) AS c FROM stream GROUP BY k, CountingWindow(1)", Rows: num, Perf: "unnamed"}, c20Inst{SQL: "SELECT k, v FROM stream", Rows: num}},
 	}
 }
 
@@ -199,7 +220,7 @@ func c20RunSchedule(p c20Pair, seqA, seqB []int, order string, lazy bool) (outA,
 	functions.VerifResetGlobals()
 	st, pv := inSched(func() {
 		mk := func(in c20Inst, out *[]string) *streamsql.Streamsql {
-			s := streamsql.New(streamsql.WithLogger(logger.NewDiscardLogger()))
+			s := streamsql.New(in.options()...)
 			if e := s.Execute(in.SQL); e != nil {
 				err = e.Error()
 				return nil
